@@ -38,6 +38,14 @@ def make_problem(seed, exact, nmax, N, kpm=False):
     cplx = rng.random() < 0.5
     nb = rng.randint(1, 3)
     sizes = [rng.randint(1, 2) for _ in range(nb)]
+    # non-Hermitian extras: a REAL non-symmetric H_0 whose first two explicit eigenvalues are a complex-conjugate
+    # pair a +- ib (eigenvectors complex, H_0 real dtype), or generic complex levels for complex H_0
+    real_pair = (not hermitian) and (not kpm) and rng.random() < 0.35
+    if real_pair:
+        cplx = False
+        if sum(sizes) < 2:
+            sizes, nb = [2], 1
+    cplx_levels = (not hermitian) and cplx and (not kpm) and rng.random() < 0.5
     lo = max(sum(sizes) + 1, 3 if kpm else 0)  # ARPACK (rescale -> eigsh, k=1) needs a sparse matrix of size >= 3
     n = rng.randint(lo, max(lo, nmax))
     nexp = sum(sizes)
@@ -66,8 +74,25 @@ def make_problem(seed, exact, nmax, N, kpm=False):
     rest = [6.0 + 1.0 * j for j in range(n - nexp)]
     if rng.random() < 0.3 and len(rest) > 1:
         rest[1] = rest[0]  # degenerate implicit levels are fine
+    if cplx_levels:
+        im = {}
+        levels = [lv + 1j * im.setdefault(lv, rng.choice([-1.0, -0.5, 0.5, 1.0, 2.0])) for lv in levels]
+        rest = [lv + 1j * rng.choice([-1.0, 0.0, 0.5, 1.0]) for lv in rest]
     D = np.array(levels + rest)
+    if real_pair:
+        a, b = levels[0], float(rng.choice([1, 2]))
+        levels[0], levels[1] = a + 1j * b, a - 1j * b
+        D = np.array(levels + rest, dtype=complex)
+        # [[a,-b],[b,a]] has eigenvectors (1,-i) <-> a+ib and (1,i) <-> a-ib
+        V = np.eye(n, dtype=complex)
+        V[:2, :2] = [[1, 1], [-1j, 1j]]
+        Vi = np.eye(n, dtype=complex)
+        Vi[:2, :2] = [[0.5, 0.5j], [0.5, -0.5j]]
+        R, Ri = R @ V, Vi @ Ri
     h0 = R @ np.diag(D) @ Ri
+    if real_pair:
+        assert np.abs(h0.imag).max() < 1e-9 * (1 + np.abs(h0).max())
+        h0 = h0.real
 
     def pert():
         if exact:
@@ -77,7 +102,9 @@ def make_problem(seed, exact, nmax, N, kpm=False):
         return (a + a.conj().T) / 2 if hermitian else a
 
     hs = [pert() for _ in range(1 if rng.random() < 0.75 else 2)]
-    if not (cplx or np.any(np.iscomplex(h0))):
+    if real_pair:
+        hs = [h.real for h in hs]
+    elif not (cplx or np.any(np.iscomplex(h0))):
         h0 = h0.real
         hs = [h.real for h in hs]
         R, Ri = R.real, Ri.real
@@ -97,7 +124,7 @@ def make_problem(seed, exact, nmax, N, kpm=False):
                         max_moments=rng.choice([None, None, 200000, 1e6]),
                         eps=rng.choice([None, None, 0.01, 0.05]))
     return dict(seed=seed, exact=exact, hermitian=hermitian, cplx=cplx, n=n, sizes=sizes, levels=levels, h0=h0, hs=hs,
-                R=R, Ri=Ri, N=N, fully=fully, kpm=kpm, kpm_opts=kpm_opts)
+                R=R, Ri=Ri, N=N, fully=fully, kpm=kpm, kpm_opts=kpm_opts, real_pair=real_pair, cplx_levels=cplx_levels)
 
 
 def dense(x, n_in=None):
@@ -232,13 +259,13 @@ def _run(ctx, exact, ncases, kpm_cases, as_tie):
         fs, cmpd = compare(p, 1e-9 if not kpm else 3 * atol, kpm_atol=atol)
         total += cmpd
         ko = p["kpm_opts"] or {}
-        feats.add((p["hermitian"], p["cplx"], tuple(p["sizes"]), len(p["hs"]), bool(p["fully"]), len(set(p["levels"])) < len(p["levels"]), kpm,
+        feats.add((p["hermitian"], p["cplx"], tuple(p["sizes"]), len(p["hs"]), bool(p["fully"]), len(set(p["levels"])) < len(p["levels"]), kpm, p["real_pair"], p["cplx_levels"],
                    len(ko.get("aux_idx", ())) > 0, ko.get("max_moments") is not None, ko.get("eps") is not None, kpm and ko.get("atol") is None))
         if kpm:
             nkpm_aux += len(ko.get("aux_idx", ())) > 0
         desc = dict(seed=seed, exact=exact, nmax=ctx.n(6, 9) if not kpm else 7, N=p["N"], kpm=kpm)
         if c < 2:
-            samples.append(dict(desc, hermitian=p["hermitian"], complex=p["cplx"], n=p["n"], sizes=p["sizes"], levels=p["levels"], fully=list(p["fully"])))
+            samples.append(dict(desc, hermitian=p["hermitian"], complex=p["cplx"], n=p["n"], sizes=p["sizes"], levels=[str(x) for x in p["levels"]], fully=list(p["fully"]), real_pair=p["real_pair"], complex_levels=p["cplx_levels"]))
         if any("raised IndexError" in f for f in fs) and not p["hermitian"] and p["fully"]:
             # known finding C06-nh-implicit-fully-diagonalize (non-Hermitian implicit mode + fully_diagonalize): keep one representative
             d13 += 1
@@ -250,7 +277,7 @@ def _run(ctx, exact, ncases, kpm_cases, as_tie):
                 fails.append(dict(what=f, input=dict(oracle="implicit", **desc)))
         if len(fails) >= 10:
             break
-    rule = "distinct (hermitian, complex, explicit block sizes, #parameters, fully_diagonalize?, degenerate explicit levels, KPM?, auxiliary_vectors?, max_moments?, eps?, default atol?)"
+    rule = "distinct (hermitian, complex, explicit block sizes, #parameters, fully_diagonalize?, degenerate explicit levels, KPM?, real H_0 with complex-conjugate explicit pair?, complex levels?, auxiliary_vectors?, max_moments?, eps?, default atol?)"
     if as_tie:
         return dict(cases=ncases + kpm_cases, nontrivial=len(feats), rule=rule, samples=samples,
                     distribution=dict(compared_blocks=total, kpm_cases=kpm_cases, kpm_with_auxiliary_vectors=nkpm_aux), disagreements=fails)
